@@ -163,4 +163,158 @@ theorem parseOne_ok (af : Bool) (o : POpts) (s s' : St) (a : Aln)
   have hb : body o nb ls vh.2 = .ok (va.1, va.2) := by rw [hbody]
   exact body_ok o _ _ _ _ _ h1 h2 hb
 
+/-! ### without the allocation from the header count the parser never panics -/
+
+section NoPanic
+
+theorem scan_np (s : St) : s.scan ≠ .error .panic := by
+  unfold St.scan
+  split
+  · simp
+  · split <;> simp
+
+theorem skipEols_np : ∀ (fuel : Nat) (s : St), skipEols fuel s ≠ .error .panic := by
+  intro fuel
+  induction fuel with
+  | zero => intro s; simp [skipEols]
+  | succ f ih =>
+    intro s h
+    unfold skipEols at h
+    simp only [bind, Except.bind, pure, Except.pure] at h
+    have := scan_np s
+    have := ih
+    repeat' (split at h <;> try (simp at h))
+    all_goals simp_all
+
+theorem scanWithEOL_np (s : St) : scanWithEOL s ≠ .error .panic := by
+  intro h
+  unfold scanWithEOL at h
+  simp only [bind, Except.bind, pure, Except.pure] at h
+  have := scan_np s
+  have := skipEols_np
+  repeat' (split at h <;> try (simp at h))
+  all_goals simp_all
+
+theorem skipLeading_np : ∀ (fuel : Nat) (s : St), skipLeading fuel s ≠ .error .panic := by
+  intro fuel
+  induction fuel with
+  | zero => intro s; simp [skipLeading]
+  | succ f ih =>
+    intro s h
+    unfold skipLeading at h
+    simp only [bind, Except.bind, pure, Except.pure] at h
+    have := scanWithEOL_np
+    have := ih
+    repeat' (split at h <;> try (simp at h))
+    all_goals simp_all
+
+theorem seqLine_np : ∀ (fuel : Nat) (t : Tok) (s : St) (acc : Seq), seqLine fuel t s acc ≠ .error .panic := by
+  intro fuel
+  induction fuel with
+  | zero => intro t s acc; simp [seqLine]
+  | succ f ih =>
+    intro t s acc h
+    unfold seqLine at h
+    simp only [bind, Except.bind, pure, Except.pure] at h
+    have := scan_np
+    have := ih
+    repeat' (split at h <;> try (simp at h))
+    all_goals simp_all
+
+theorem readName10_np (s : St) : readName10 s ≠ .error .panic := by
+  intro h
+  unfold readName10 at h
+  repeat' (split at h <;> try (simp [pure, Except.pure] at h))
+
+theorem firstBlock_np (strict : Bool) : ∀ (fuel n : Nat) (s : St) (acc : List XRow),
+    firstBlock strict fuel n s acc ≠ .error .panic := by
+  intro fuel
+  induction fuel with
+  | zero => intro n s acc; cases n <;> simp [firstBlock, pure, Except.pure]
+  | succ f ih =>
+    intro n s acc h
+    cases n with
+    | zero => simp [firstBlock, pure, Except.pure] at h
+    | succ n =>
+      unfold firstBlock at h
+      simp only [bind, Except.bind, pure, Except.pure] at h
+      have := scan_np
+      have := readName10_np
+      have := seqLine_np
+      have := ih
+      repeat' (split at h <;> try (simp at h))
+      all_goals simp_all
+
+theorem nextBlock_np : ∀ (rows : List XRow) (s : St) (acc : List XRow), nextBlock rows s acc ≠ .error .panic
+  | [], s, acc => by simp [nextBlock, pure, Except.pure]
+  | (nm, q) :: rest, s, acc => by
+    intro h
+    unfold nextBlock at h
+    simp only [bind, Except.bind, pure, Except.pure] at h
+    have := scan_np
+    have := seqLine_np
+    have := nextBlock_np rest
+    repeat' (split at h <;> try (simp at h))
+    all_goals simp_all
+
+theorem afterBlock_np (l : Int) (rows : List XRow) (s : St) : afterBlock l rows s ≠ .error .panic := by
+  intro h
+  unfold afterBlock at h
+  simp only [bind, Except.bind, pure, Except.pure] at h
+  have := scan_np
+  have := scanWithEOL_np
+  repeat' (split at h <;> try (simp at h))
+  all_goals simp_all
+
+theorem blocks_np (l : Int) : ∀ (fuel : Nat) (t : Tok) (s : St) (rows : List XRow),
+    blocks l fuel t s rows ≠ .error .panic := by
+  intro fuel
+  induction fuel with
+  | zero => intro t s rows; simp [blocks]
+  | succ f ih =>
+    intro t s rows h
+    unfold blocks at h
+    simp only [bind, Except.bind, pure, Except.pure] at h
+    have := nextBlock_np
+    have := afterBlock_np
+    have := ih
+    repeat' (split at h <;> try (simp at h))
+    all_goals simp_all
+
+theorem build_np (o : POpts) (l : Int) (rows : List XRow) : build o l rows ≠ .error .panic := by
+  intro h
+  unfold build at h
+  repeat' (split at h <;> try (simp [pure, Except.pure] at h))
+
+theorem body_np (o : POpts) (n l : Int) (s : St) : body o n l s ≠ .error .panic := by
+  intro h
+  unfold body at h
+  simp only [bind, Except.bind, pure, Except.pure] at h
+  have := firstBlock_np o.strict
+  have := afterBlock_np
+  have := blocks_np
+  have := build_np
+  repeat' (split at h <;> try (simp at h))
+  all_goals simp_all
+
+theorem header_np (s : St) : header false s ≠ .error .panic := by
+  intro h
+  unfold header at h
+  simp only [bind, Except.bind, pure, Except.pure, alloc] at h
+  have := scan_np
+  have := skipLeading_np
+  repeat' (split at h <;> try (simp at h))
+  all_goals simp_all
+
+theorem parseOne_np (o : POpts) (s : St) : parseOne false o s ≠ .error .panic := by
+  intro h
+  unfold parseOne at h
+  simp only [bind, Except.bind, pure, Except.pure] at h
+  have := header_np
+  have := body_np
+  repeat' (split at h <;> try (simp at h))
+  all_goals simp_all
+
+end NoPanic
+
 end Gv.Proofs.PhylipOutcome
